@@ -1,0 +1,10 @@
+//go:build !verif
+
+package rpc
+
+func vpoolGetClient(s *channelState)       {}
+func vpoolGetServer(s *serverChannelState) {}
+func vpoolGetRequest(s *requestState)      {}
+func vpoolPutClient(s *channelState)       {}
+func vpoolPutServer(s *serverChannelState) {}
+func vpoolPutRequest(s *requestState)      {}
